@@ -27,10 +27,13 @@ func TestMain(m *testing.M) { vf.Main(m) }
 
 // Call is one transaction call (replay format).
 type Call struct {
-	K       string `json:"k"` // get, set, finish
-	Key     string `json:"key,omitempty"`
-	Val     string `json:"val,omitempty"`
-	Delete  bool   `json:"delete,omitempty"`
+	K      string `json:"k"` // get, set, finish
+	Key    string `json:"key,omitempty"`
+	Val    string `json:"val,omitempty"`
+	Delete bool   `json:"delete,omitempty"`
+	// BadData: the record handed to Set cannot produce its contents (its Data() fails): the Set's result carries an error
+	// and the key keeps whatever it held
+	BadData bool   `json:"bad_data,omitempty"`
 	Handler string `json:"handler,omitempty"` // "", ok, err, abort, abort+err
 	How     string `json:"how,omitempty"`     // finish: commit, abort
 	Mode    int    `json:"mode,omitempty"`    // at "begin": transaction mode
@@ -41,6 +44,7 @@ type Header struct {
 }
 
 var errHandler = errors.New("verif: handler error")
+var errBadData = errors.New("verif: record cannot produce its contents")
 
 type env struct {
 	impl   string
@@ -214,8 +218,16 @@ func (e *env) runTxnInner(calls []Call) (string, string) {
 				rec = record(c.Val)
 				contents = blob.NewBytes([]byte(c.Val))
 			}
+			if c.BadData && !c.Delete {
+				rec = keyvalue.NewBaseFileRecord(int64(len(c.Val)), time.Unix(1e9, 0), 0o644, nil, func() (blob.Blob, error) {
+					return nil, errBadData
+				}, nil)
+				contents = nil // the store has to ask the record
+			}
 			if aborted {
 				x.wantErr = "aborted"
+			} else if c.BadData && !c.Delete {
+				x.wantErr = "baddata" // and the model keeps the old value
 			} else {
 				if c.Delete {
 					delete(e.model, c.Key)
@@ -292,6 +304,10 @@ func (e *env) runTxnInner(calls []Call) (string, string) {
 			if !errors.Is(r.Err, hackpadfs.ErrNotExist) {
 				return "commit:get-missing", fmt.Sprintf("Get of missing key (call %d %+v): Err=%v Record=%v", i, x.call, r.Err, r.Record)
 			}
+		case "baddata":
+			if r.Err == nil {
+				return "commit:baddata-no-error", fmt.Sprintf("call %d (%+v): the record's Data() fails but the Set's result has a nil error", i, x.call)
+			}
 		case "handler":
 			if !errors.Is(r.Err, errHandler) {
 				return "commit:handler-error-lost", fmt.Sprintf("call %d (%+v): handler returned an error but result.Err=%v", i, x.call, r.Err)
@@ -360,6 +376,7 @@ func genCalls(t *rapid.T) []Call {
 		case 4, 5, 6, 7:
 			c := Call{K: "set", Key: rapid.SampledFrom(keys).Draw(t, "key"), Val: rapid.StringMatching("[a-z]{0,4}").Draw(t, "val")}
 			c.Delete = rapid.IntRange(0, 4).Draw(t, "delete") == 0
+			c.BadData = !c.Delete && rapid.IntRange(0, 5).Draw(t, "baddata") == 0
 			if rapid.Bool().Draw(t, "withHandler") {
 				c.Handler = rapid.SampledFrom([]string{"ok", "ok", "err", "abort", "abort+err"}).Draw(t, "handler")
 			}
